@@ -70,6 +70,8 @@ def oracle(c):
         if r is not None and not r["fault"]:
             if "i_real" in r and r["i_real"] != r["i_ref"]:
                 return [Failure("oracle", PROP, f"instruction cache (hits, accesses) {r['i_real']}; a reference cache of the configured geometry fed the same fetch addresses gives {r['i_ref']} ({r['mode']})", "icache:counters-vs-configured")]
+            if r.get("i_reported") is not None and r["i_reported"] != (str(r["i_ref"][0]), str(r["i_ref"][1])):
+                return [Failure("oracle", PROP, f"the statistics getter reports (hits, accesses) {r['i_reported']}, the reference counted {r['i_ref']} ({r['mode']})", "icache:reported-counters")]
             if r["cycles"] != r["cycles_ref"]:
                 return [Failure("oracle", PROP, f"{r['cycles']} cycles for {r['steps']} steps; steps + penalty x reference misses = {r['cycles_ref']} ({r['mode']})", "icache:penalty-vs-configured")]
     fails = []
